@@ -4,6 +4,7 @@ survey and undo it: no property's check may raise an alarm.  Results in benign/<
 import json, os, subprocess, sys, time
 
 VERIF = os.path.dirname(os.path.dirname(os.path.abspath(__file__)))
+REPO = os.environ.get("VERIF_REPO", "/repo")
 DIR = os.path.join(VERIF, "benign")
 
 
@@ -13,14 +14,14 @@ def sh(cmd, **kw):
 
 def main():
     ids = sys.argv[1:] or sorted(os.listdir(DIR))
-    if sh("git -C /repo status --porcelain").stdout.strip():
+    if sh("git -C %s status --porcelain" % REPO).stdout.strip():
         print("/repo is not clean")
         sys.exit(2)
     for mid in ids:
         patch = os.path.join(DIR, mid, "patch.diff")
         if not os.path.exists(patch):
             continue
-        r = sh("git -C /repo apply %s" % patch)
+        r = sh("git -C %s apply %s" % (REPO, patch))
         if r.returncode != 0:
             print(mid, "patch does not apply:", r.stdout[-300:])
             continue
@@ -28,7 +29,7 @@ def main():
         try:
             out = sh("python3 %s/bin/check.py --survey --tier quick" % VERIF, cwd=VERIF, timeout=2400).stdout
         finally:
-            sh("git -C /repo checkout -- .")
+            sh("git -C %s checkout -- ." % REPO)
         res = {}
         for line in out.splitlines():
             if line.startswith("SURVEY "):
